@@ -24,7 +24,8 @@ CHECKS = {
     "C08": ("hook H1 records every schedule the real ParallelLocalSearchSolver accepts; TracePipe.tla!P_C08_descent requires a "
             "strict lexicographic decrease of the objective RECOMPUTED by the specification (unserved, violation, vehicles, costs); "
             "P_C08_result: result = last accepted step and <=lex start; P_C08_fix: the real solver re-run on its own result accepts "
-            "nothing and returns the same schedule", "6-C08"),
+            "nothing and returns the same schedule; design level: Pipeline.tla (TLC, bounded objective domain), PipelineInd.tla "
+            "(Apalache: inductive invariant over an unbounded domain), LexOrder.tla (TLAPS: the order is a strict order)", "6-C08"),
     "C09": ("SchedView.tla!CachesOK (every cached figure of tours, schedule, transitions, depots against the from-scratch "
             "TLA+ definitions) evaluated by TLC on every state of adaptive random walks over all 12 public modifications, "
             "on every pipeline stage snapshot, on the repository's own tests (hook H3) and (tour level) on the exhaustive Gen_Tour "
@@ -55,9 +56,13 @@ CHECKS = {
             "TransInv (partition, lookup, empty-cycle stack, every counter and total = recomputation) for all operation sequences "
             "up to the bound (MC_Transition) and emits every explored state with a history; rsv trans replays them on the real "
             "Transition; TraceTrans.tla requires the observed state to satisfy TransInv and to equal the model's prediction; "
-            "P_C15_opt on the pipeline: optimisation keeps the vehicles and never worsens (violation, counter)", "6-C15"),
+            "every history is replayed call by call and as one batch (stale tours + updated map, as the schedule uses the API); "
+            "P_C15_opt on the pipeline and P_C15_topt on every 4th state of the schedule walks (real optimiser on the carried and on "
+            "the recomputed cycles, time-limited): optimisation keeps the vehicles and never worsens (violation, counter)", "6-C15"),
     "C16": ("stage snapshots (cfg hooks) related by TracePipe.tla!P_C16_*: start=improve(mcf), transopt keeps ls tours, "
-            "final carries transopt's cycles and ls's activities, answer = projection of final", "6-C16"),
+            "final carries transopt's cycles and ls's activities (successors read off the cycles), answer = projection of final; "
+            "hook H4 records the cycles the optimiser returned per type and P_C16_chosen requires the transopt snapshot to carry "
+            "exactly those", "6-C16"),
     "C17": ("Net.tla!NetObsOK: every public Network getter (nodes, limits, depots, can_reach matrix, successors / "
             "predecessors, dead-heads) compared by TLC with the reference network derived from the abstract instance", "6-C17"),
     "C18": ("Server.tla: request/response machine (clients, bounded handler threads, own-answer function Expected, no action "
